@@ -347,7 +347,7 @@ def check(run: lib.Run, audit: dict) -> int:
                        "strings with lone surrogates cannot be represented in the model (Lean String): they are evaluated on the real engine only (must not raise)"]
     if not audit["ok"]:
         raise lib.CheckError(f"Lean build/audit failed at {audit['stage']}: {audit.get('log') or audit.get('forbidden') or audit.get('bad_axioms')}")
-    run_cases(run, audit)
+    run_cases(run, audit, scale=run.boost)
     violations = []
     if run.disagreements and not run.spec_failures:
         run_cases(run, audit, scale=4)
